@@ -75,6 +75,8 @@ inductive Obs where
   | func (id : Nat) (cur : String) (prev : String)
   | ticket (w : WaiterId)
   | ended | panicked
+  /-- injected faults (only `Jf`, the fault-aware task of `Wx.Job.Faults`, emits these) -/
+  | killFail (c : ChildId) | signalFail (c : ChildId) (sig : Sig) | waitFail (c : ChildId)
   deriving Repr, DecidableEq
 
 /-- which queue `recv` could take from right now -/
